@@ -740,7 +740,7 @@ impl WriterSet {
             self.segment_size,
         )?;
 
-        let (closed_event_index, closed_partition_index, closed_stream_index) = {
+        {
             let mut indexes = self.indexes.blocking_write();
             for PendingIndex {
                 event_id,
@@ -777,25 +777,28 @@ impl WriterSet {
             let closed_partition_index = old_partition_index.close(&self.thread_pool)?;
             let closed_stream_index = old_stream_index.close(&self.thread_pool)?;
 
+            // Install the sealed segment's indexes in the reader pool while the live index
+            // lock is still held: a reader that misses in the new (empty) live indexes must
+            // already find the sealed segment, otherwise acknowledged events disappear for
+            // the duration of the rollover.
+            self.reader_pool.add_bucket_segment(
+                old_bucket_segment_id,
+                &old_reader,
+                Some(&closed_event_index),
+                Some(&closed_partition_index),
+                Some(&closed_stream_index),
+            );
+            self.reader_pool.add_bucket_segment(
+                self.bucket_segment_id,
+                &self.reader,
+                None,
+                None,
+                None,
+            );
+
             self.index_segment_id
                 .store(self.bucket_segment_id.segment_id, Ordering::Release);
-
-            (
-                closed_event_index,
-                closed_partition_index,
-                closed_stream_index,
-            )
-        };
-
-        self.reader_pool.add_bucket_segment(
-            old_bucket_segment_id,
-            &old_reader,
-            Some(&closed_event_index),
-            Some(&closed_partition_index),
-            Some(&closed_stream_index),
-        );
-        self.reader_pool
-            .add_bucket_segment(self.bucket_segment_id, &self.reader, None, None, None);
+        }
 
         Ok(())
     }
